@@ -364,6 +364,14 @@ func (w *world) keyIndex(k cipher.SecKey) int {
 	return 0
 }
 
+// upTo returns a value in [0, max].
+func upTo(r *Rng, max uint64) uint64 {
+	if max == ^uint64(0) {
+		return r.U64()
+	}
+	return r.U64() % (max + 1)
+}
+
 func hoursAt(ux coin.UxOut, t uint64) uint64 {
 	h, err := ux.CoinHours(t)
 	if err != nil {
@@ -391,9 +399,7 @@ func (w *world) splitOuts(coins, hours uint64) []coin.TransactionOutput {
 	case 1:
 		restH = hours / 2
 	case 2:
-		if hours > 0 {
-			restH = uint64(w.r.Intn(1000)) % (hours + 1)
-		}
+		restH = upTo(w.r, hours) % 1000
 	}
 	for i := 0; i < k; i++ {
 		c := restC
@@ -417,9 +423,7 @@ func (w *world) splitOuts(coins, hours uint64) []coin.TransactionOutput {
 			if c < 1 {
 				c = 1
 			}
-			if restH > 0 {
-				h = w.r.U64() % (restH + 1)
-			}
+			h = upTo(w.r, restH)
 		}
 		outs = append(outs, coin.TransactionOutput{Address: w.addrs[w.r.Intn(nKeys)], Coins: c, Hours: h})
 		restC -= c
@@ -976,7 +980,7 @@ func (h *history) mutate(kind string) (opRec, bool) {
 func run(args []string) error {
 	f := ParseFlags("c01", args)
 	logging.Disable()
-	n := f.Budget(14, 140)
+	n := f.Budget(40, 400)
 	r := NewRng(f.Seed)
 	o := NewOut()
 	hist := Hist{}
@@ -1065,7 +1069,7 @@ func run(args []string) error {
 				cls = errClass(execErr)
 				res = "(Rejected " + cls + ")"
 			}
-			dn, uxs, err := w.dump(p, nd, execErr == nil && !panicked)
+			dn, uxs, err := w.dump(p, nd, true)
 			if err != nil {
 				nd.close()
 				return err
